@@ -122,7 +122,12 @@ def _try_edit(rng, model, kind):
         return _random_input_edit(rng, model)
     if kind == "starts":
         up = rng.choice(names_of(model, "UsagePattern"))
-        vals, start = random_starts(rng)
+        n = len(model[up]["opt"]["starts"])      # a series of another length is refused by the pinned code
+        vals, start = random_starts(rng, n, n)
+        if rng.random() < 0.6:
+            start = model[up]["opt"]["start"]
+        if vals == model[up]["opt"]["starts"] and start == model[up]["opt"]["start"]:
+            return None
         return ("opt", up, "starts", [vals, start])
     if kind == "tz":
         c = rng.choice(names_of(model, "Country"))
